@@ -159,13 +159,13 @@ def pika_flags(variant='hooks'):
     return sh([os.path.join(HERE, 'tools', 'pika_flags.sh'), variant]).stdout.strip()
 
 
-def compile_harness(name, src, variant='hooks', extra='-O1'):
+def compile_harness(name, src, variant='hooks', extra='-O1', libs=''):
     """Compile harness/<src> against /repo's current headers + the hooks build; always recompiles
     (pika headers may have changed)."""
     os.makedirs(BIN, exist_ok=True)
     out = os.path.join(BIN, name)
     with Lock('cc_' + name):
-        r = sh(f'g++ {extra} {os.path.join(HERE, "harness", src)} {pika_flags(variant)} -o {out}.tmp && mv {out}.tmp {out}')
+        r = sh(f'g++ {extra} {os.path.join(HERE, "harness", src)} {pika_flags(variant)} {libs} -o {out}.tmp && mv {out}.tmp {out}')
     return r.returncode == 0, out, (r.stdout + r.stderr)[-3000:]
 
 
